@@ -19,6 +19,36 @@ func registerStd(e *Engine) {
 	for _, n := range noop {
 		e.AddRule(n, ruleNoop)
 	}
+	// sync/atomic on the sequential value model: plain loads, stores and read-modify-writes
+	for _, ty := range []string{"Int32", "Int64", "Uint32", "Uint64", "Uintptr", "Pointer"} {
+		e.AddRule("sync/atomic.Load"+ty, func(w *W, fn *ssa.Function, a []Value) Value { return w.loadPtr(a[0].(PtrV)) })
+		e.AddRule("sync/atomic.Store"+ty, func(w *W, fn *ssa.Function, a []Value) Value {
+			w.storePtr(a[0].(PtrV), a[1])
+			return TupleV{}
+		})
+		e.AddRule("sync/atomic.Swap"+ty, func(w *W, fn *ssa.Function, a []Value) Value {
+			old := w.loadPtr(a[0].(PtrV))
+			w.storePtr(a[0].(PtrV), a[1])
+			return old
+		})
+		e.AddRule("sync/atomic.CompareAndSwap"+ty, func(w *W, fn *ssa.Function, a []Value) Value {
+			p := a[0].(PtrV)
+			eq := w.eqValue(w.loadPtr(p), a[1])
+			if w.Branch(eq) {
+				w.storePtr(p, a[2])
+				return w.C.True()
+			}
+			return w.C.False()
+		})
+		if ty != "Pointer" {
+			e.AddRule("sync/atomic.Add"+ty, func(w *W, fn *ssa.Function, a []Value) Value {
+				p := a[0].(PtrV)
+				nv := w.C.Add(w.termOf(w.loadPtr(p)), w.termOf(a[1]))
+				w.storePtr(p, nv)
+				return nv
+			})
+		}
+	}
 	// time.Now: an arbitrary wall-clock instant (no monotonic reading, UTC)
 	e.AddRule("time.Now", func(w *W, fn *ssa.Function, a []Value) Value {
 		if w.initDepth > 0 {
@@ -32,6 +62,34 @@ func registerStd(e *Engine) {
 		w.Assume(w.C.And(w.C.Sge(secs, w.C.BVu(0, 64)), w.C.Slt(secs, w.C.BVu(300000000000, 64))))
 		return StructV{F: []Value{w.C.BVu(0, 64), secs, PtrV{}}}
 	})
+	// time.Unix(sec, nsec): the instant as a UTC time value (the location only matters for formatting)
+	e.AddRule("time.Unix", func(w *W, fn *ssa.Function, a []Value) Value {
+		ns := w.termOf(a[1])
+		if !ns.IsConst() || ns.Int64() < 0 || ns.Int64() >= 1000000000 {
+			w.unsupported("time.Unix with a symbolic or unnormalised nanosecond part")
+		}
+		ext := w.C.Add(w.termOf(a[0]), w.C.BVu(62135596800, 64))
+		return StructV{F: []Value{w.C.Resize(ns, 64, false), ext, PtrV{}}}
+	})
+	// regular expressions are not executed: compiling yields an opaque object so that
+	// package initialisers can proceed; using it is UNSUPPORTED unless a harness rule models the call
+	reCompile := func(w *W, fn *ssa.Function, a []Value) Value {
+		rp := w.E.Pkgs["regexp"]
+		if rp == nil || rp.Type("Regexp") == nil {
+			w.unsupported("regexp not loaded")
+		}
+		p := PtrV{C: w.newCell(rp.Type("Regexp").Type())}
+		if fn.Signature.Results().Len() == 2 {
+			return TupleV{p, IfaceV{}}
+		}
+		return p
+	}
+	e.AddRule("regexp.MustCompile", reCompile)
+	e.AddRule("regexp.Compile", reCompile)
+	pkgRules["regexp"] = func(w *W, fn *ssa.Function, a []Value) Value {
+		w.unsupported("regular expression operation " + fn.String() + " (not modelled)")
+		return nil
+	}
 	e.AddRule("fmt.Sprintf", func(w *W, fn *ssa.Function, a []Value) Value { return w.fmtString(a) })
 	e.AddRule("fmt.Sprint", func(w *W, fn *ssa.Function, a []Value) Value { return w.strConst("<fmt.Sprint>") })
 	e.AddRule("fmt.Sprintln", func(w *W, fn *ssa.Function, a []Value) Value { return w.strConst("<fmt.Sprintln>") })
